@@ -51,6 +51,19 @@ COMP_MODELS = [
     ("DisplacementTransfer", dict(nx=2, ny=3, side="left", pf="twdi", model="tube")),
 ]
 
+# every other component of the C01 registry, explored to a shallower depth (its first and last configuration)
+DEEP = len(COMP_MODELS)
+_seen = {n for n, _ in COMP_MODELS}
+for _name, _case in cases.CASES.items():
+    _cfgs = _case.cfgs("quick")
+    for _cfg in ([_cfgs[0], _cfgs[-1]] if len(_cfgs) > 1 else _cfgs):
+        if (_name, _cfg) not in COMP_MODELS:
+            COMP_MODELS.append((_name, _cfg))
+
+# inputs that are set to exactly zero in the third design point (where the component declares them): 'engines off',
+# 'no rotation', 'no fuel', 'zero twist' ... are ordinary admissible values on which shortcuts tend to be keyed
+ZEROABLE = ("engine_thrusts", "point_masses", "omega", "fuel_mass", "twist", "xshear", "yshear", "zshear", "sweep", "dihedral", "beta", "rotational_velocities", "loads", "struct_weight_loads", "fuel_weight_loads", "loads_from_point_masses", "loads_from_thrusts", "CDw", "CL0")
+
 _MODELS = {}
 
 
@@ -84,6 +97,9 @@ def comp_model(idx, fam):
             # third point: the special values where the case defines them, otherwise a third generic point
             r2 = c01.resolve(p0, case.point(mk("gen0"), "gen0"), ins, mk("gen0"), "gen0")
             r = {n: (0.5 * (r[n] + 1.7 * pts[1][n]) if np.array_equal(r[n], r2[n]) else r[n]) for n in ins}
+            for n in ins:
+                if n in ZEROABLE or any(n.endswith("_" + z) for z in ZEROABLE):
+                    r[n] = np.zeros_like(r[n])
         pts.append(r)
     m = history.Model("%s#%d" % (name, idx), build, pts, outs, ins, tol=1e-10)
     _MODELS[key] = m
@@ -106,6 +122,31 @@ def group_model(which, fam):
             pts[k]["wing.twist_cp"] = np.array(tw)
             pts[k]["height_agl"] = [6.0, 9.0, 4.0][k]
         mdl = history.Model("AeroPoint", build, pts, ["ap.CL", "ap.CD", "ap.CM", "ap.total_perf.moment.M"], ["alpha", "v", "Mach_number", "wing.twist_cp", "height_agl", "cg"], tol=1e-10)
+    elif which == "aero_rot":
+        def build(mode):
+            m = gen.make_mesh("twdi", 2, 5, "full", fam, asym=True)
+            w = builders.aero_surface("wing", m, False, with_viscous=True, twist_cp=np.array([1.0, 2.0, 0.5]), CD0=0.01)
+            return builders.build_aero([w], dict(v=70.0, alpha=3.0, beta=2.0, rho=1.0, re=2e6, Mach_number=0.3, cg=[0.5, 0.1, 0.1], omega=[0.3, -0.1, 0.2]), with_geom=True, mode=mode, rotational=True)
+
+        pts = [dict(alpha=3.0, omega=np.array([0.3, -0.1, 0.2])), dict(alpha=3.0, omega=np.zeros(3)), dict(alpha=-2.0, omega=np.array([0.0, 0.2, 0.0]), beta=0.0)]
+        for k in (0, 1, 2):
+            pts[k].setdefault("beta", 2.0)
+        mdl = history.Model("AeroPoint_rotational", build, pts, ["ap.CL", "ap.CD", "ap.CM"], ["alpha", "beta", "omega", "cg"], tol=1e-10)
+    elif which == "as_pm":
+        def build(mode):
+            m = gen.make_mesh("twdi", 2, 3, "left", fam, span=10.0, chord=1.6)
+            s_ = builders.struct_surface("wing", m, True, "wingbox", struct_weight_relief=True, distributed_fuel_weight=True, with_viscous=True, n_point_masses=1, twist_cp=np.array([2.0, 3.0, 1.0]), spar_thickness_cp=np.array([0.004, 0.006, 0.008]), skin_thickness_cp=np.array([0.008, 0.012, 0.016]))
+            p = builders.build_aerostruct([s_], dict(Mach_number=0.5, W0=2.0e3, v=100.0, rho=0.9, alpha=4.0, speed_of_sound=200.0, R=2.0e6, load_factor=1.3), mode=mode, pm=dict(point_masses=[600.0], engine_thrusts=[5.0e3], point_mass_locations=[[1.1, -2.3, -0.35]]))
+            builders.tighten(p)
+            return p
+
+        pts = [
+            {"engine_thrusts": np.array([5.0e3]), "point_masses": np.array([600.0]), "fuel_mass": 1.0e4, "load_factor": 1.3},
+            {"engine_thrusts": np.array([0.0]), "point_masses": np.array([0.0]), "fuel_mass": 0.0, "load_factor": 1.3},
+            {"engine_thrusts": np.array([2.0e3]), "point_masses": np.array([900.0]), "fuel_mass": 5.0e3, "load_factor": 2.5},
+        ]
+        A = "AS_point_0."
+        mdl = history.Model("AerostructPoint_pointmass_fuel", build, pts, [A + "CL", A + "fuelburn", A + "wing_perf.failure", A + "L_equals_W"], ["alpha", "load_factor", "engine_thrusts", "point_masses", "fuel_mass", "wing.twist_cp"], tol=1e-7, chk_tol=2e-2)
     else:
         model = "tube" if which == "as_tube" else "wingbox"
 
@@ -124,7 +165,8 @@ def group_model(which, fam):
         base = np.array([0.015, 0.02, 0.03]) if model == "tube" else np.array([0.004, 0.006, 0.008])
         pts = [
             {"alpha": 4.0, "v": 100.0, "load_factor": 1.3, "wing.twist_cp": np.array([2.0, 3.0, 1.0]), tk: base},
-            {"alpha": 1.0, "v": 130.0, "load_factor": 2.5, "wing.twist_cp": np.array([0.0, 1.0, 4.0]), tk: base * 1.5},
+            # flight condition only (same geometry and structure as P0)
+            {"alpha": 1.0, "v": 130.0, "load_factor": 2.5, "wing.twist_cp": np.array([2.0, 3.0, 1.0]), tk: base},
             {"alpha": 6.0, "v": 80.0, "load_factor": 1.0, "wing.twist_cp": np.array([3.0, 0.5, 2.0]), tk: base * 0.8},
         ]
         A = "AS_point_0."
@@ -170,15 +212,17 @@ _STATS = {}
 def levels(tier, seed):
     fam = seed % 3
     depth = 3 if tier == "quick" else 5
+    shallow = 2 if tier == "quick" else 3  # for the components beyond the hand-picked stateful ones
     ops = list(COMP_OPS) + ([["chk"]] if tier == "thorough" else [])
     seen = set()
     frontier = []
     first = []
     for idx in range(len(COMP_MODELS)):
-        for mode in ("fwd", "rev"):
-            first.append(dict(level="comp", idx=idx, comp=COMP_MODELS[idx][0], mode=mode, fam=fam, hist=[["goto", 0]]))
+        # hand-picked stateful components: both modes; the rest of the registry: one mode each (alternating) in the quick tier
+        for mode in ("fwd", "rev") if (idx < DEEP or tier == "thorough") else (("fwd", "rev")[idx % 2],):
+            first.append(dict(level="comp", idx=idx, comp=COMP_MODELS[idx][0], mode=mode, fam=fam, hist=[["goto", 0]], maxd=depth if idx < DEEP else shallow))
     # group level: complete enumeration within the deviation bound (no pruning needed)
-    kd = {"aero": 2 if tier == "quick" else 3, "as_tube": 1 if tier == "quick" else 2, "as_wingbox": 1 if tier == "quick" else 2}
+    kd = {"aero": 2 if tier == "quick" else 3, "aero_rot": 1 if tier == "quick" else 2, "as_tube": 1 if tier == "quick" else 2, "as_wingbox": 1 if tier == "quick" else 2, "as_pm": 1 if tier == "quick" else 2}
     gops = list(DEV_OPS) + ([["chk"]] if tier == "thorough" else [])
     group_states = []
     for which, k in kd.items():
@@ -202,8 +246,12 @@ def levels(tier, seed):
     while frontier and d < depth:
         batch = []
         for s in frontier:
+            if len(s["hist"]) - 1 >= s["maxd"]:
+                continue
             for op in ops:
                 batch.append(dict(s, hist=s["hist"] + [op]))
+        if not batch:
+            break
         res = yield batch
         frontier = []
         for s, r in zip(batch, res):
